@@ -558,8 +558,8 @@ func removesRangeIndex(info *types.Info, body ast.Node, n ast.Node, field *types
 
 func c28(c *core.Ctx) {
 	p := c.P
-	c.Explain = "Structural necessary condition for bounded lock bookkeeping: every keyed container in the lock package that gains entries on Lock has a removal site reachable from the release paths (Unlock, TTL expiry, cancellation)."
-	c.NotCovered = []string{"that the removal actually happens for every history (needs execution)", "memory held by goroutines/timers"}
+	c.Explain = "Structural necessary conditions for bounded lock bookkeeping: every keyed container in the lock package that gains entries on Lock has a removal site reachable from the release paths (Unlock, TTL expiry, cancellation), each release path deletes the entry it inserted, and every removal of a caller from a queue closes the channel that stops the caller's TTL watchdog goroutine on every path (what a released lock could otherwise leave parked for the whole TTL)."
+	c.NotCovered = []string{"that the removal actually happens for every history (needs execution)", "memory reachable from a parked goroutine other than through the watchdog's stop channel (e.g. a timer that is never stopped after the goroutine exits)"}
 	r := c.Rule("C28.prune", "each keyed container (map / sync.Map field) of the lock bookkeeping that is inserted into has a delete site reachable from queue.remove / Unlock", 1)
 	// C28.stop: what a granted lock leaves running (the TTL watchdog goroutine with its timer, holding the
 	// caller and the queue) is stopped by closing the caller's done channel: every removal from a queue
